@@ -40,7 +40,7 @@ fn vec_case<W: Num>(run: &mut Run, rng: &mut Rng) {
         let op = rng.below(6);
         run.h(op);
         match op {
-            0 | 1 => {
+            0 => {
                 let x = w::<W>(rng);
                 if small {
                     sv.write(x).unwrap();
@@ -49,6 +49,22 @@ fn vec_case<W: Num>(run: &mut Run, rng: &mut Rng) {
                 }
                 model.push(x);
                 log.push(format!("write({})", x.as_u()));
+            }
+            1 => {
+                let xs: Vec<W> = (0..rng.usize_in(0, 4)).map(|_| w::<W>(rng)).collect();
+                if small {
+                    sv.extend_from_iter(xs.iter().copied()).unwrap();
+                    if WriteWords::<W>::maybe_full(&sv) {
+                        fail!("C17/vec-bounds", "SmallVec claims maybe_full()");
+                    }
+                } else {
+                    v.extend_from_iter(xs.iter().copied()).unwrap();
+                    if WriteWords::<W>::maybe_full(&v) {
+                        fail!("C17/vec-bounds", "Vec claims maybe_full()");
+                    }
+                }
+                model.extend_from_slice(&xs);
+                log.push(format!("extend_from_iter({})", xs.len()));
             }
             2 => {
                 let g = if small { ReadWords::<W, Stack>::read(&mut sv).unwrap() } else { ReadWords::<W, Stack>::read(&mut v).unwrap() };
@@ -290,6 +306,13 @@ fn cursor_case<W: Num>(run: &mut Run, rng: &mut Rng) {
                         if sl != nw {
                             fail!("C17/reverse-space_left", "Reverse<Cursor>::space_left()={sl} but {nw} writes succeed (pos {}, len {})", reference.pos, reference.buf.len());
                         }
+                        if BoundedReadWords::<W, Stack>::is_exhausted(r) != (ns == 0)
+                            || BoundedReadWords::<W, Queue>::is_exhausted(r) != (nq == 0)
+                            || ReadWords::<W, Stack>::maybe_exhausted(r) != (ns == 0)
+                            || ReadWords::<W, Queue>::maybe_exhausted(r) != (nq == 0)
+                        {
+                            fail!("C17/is_full-is_exhausted", "Reverse: is_exhausted/maybe_exhausted disagree with what succeeds (reads {ns}/{nq})");
+                        }
                         if r.is_full() != (nw == 0) {
                             fail!("C17/reverse-space_left", "Reverse<Cursor>::is_full()={} but {nw} writes succeed", r.is_full());
                         }
@@ -395,6 +418,17 @@ fn cursor_case<W: Num>(run: &mut Run, rng: &mut Rng) {
                     if gs != exp_s || gq != exp_q {
                         fail!("C17/cursor-read", "buffer kind {kind}: reads {:?}/{:?}, expected {:?}/{:?}", gs.map(|x| x.as_u()), gq.map(|x| x.as_u()), exp_s.map(|x| x.as_u()), exp_q.map(|x| x.as_u()));
                     }
+                    // write-end constructors
+                    {
+                        let mut b3 = buf.clone();
+                        let l = b3.len();
+                        let c1 = Cursor::<W, _>::new_at_write_end_mut(&mut b3[..]);
+                        let c2 = Cursor::<W, _>::new_at_write_end(buf.clone());
+                        let c3 = Cursor::<W, Vec<W>>::new_at_write_beginning(buf.clone());
+                        if c1.pos() != l || c2.pos() != l || c3.pos() != 0 {
+                            fail!("C17/pos", "write-end/beginning constructors report pos {} / {} / {}", c1.pos(), c2.pos(), c3.pos());
+                        }
+                    }
                     // constructors refuse positions beyond the buffer
                     if Cursor::<W, _>::new_at_pos(&buf[..], buf.len() + 1).is_ok() {
                         fail!("C17/new_at_pos", "new_at_pos(len+1) accepted");
@@ -475,6 +509,28 @@ fn adapter_case<W: Num>(run: &mut Run, rng: &mut Rng) {
         if r != expected {
             let sig = if ended { "C17/some-after-none" } else { "C17/iterator-adapter" };
             run.violation("backend-contract", sig, format!("{desc} :: read #{idx} returned {:?}, expected {:?}", r.map(|o| o.map(|x| x.as_u())), expected.map(|o| o.map(|x| x.as_u()))));
+            return;
+        }
+    }
+    // bounded variant over an exact-size iterator: remaining() counts what is left; into_iter
+    // hands back the rest
+    {
+        let ws: Vec<W> = (0..rng.usize_in(0, 8)).map(|_| w::<W>(rng)).collect();
+        let mut b = FallibleIteratorReadWords::new(ws.iter().map(|x| Ok::<W, u8>(*x)));
+        let k = rng.usize_in(0, ws.len());
+        for i in 0..k {
+            if BoundedReadWords::<W, Stack>::remaining(&b) != ws.len() - i {
+                run.violation("backend-contract", "C17/remaining", format!("FallibleIteratorReadWords::remaining()={} with {} items left", BoundedReadWords::<W, Stack>::remaining(&b), ws.len() - i));
+                return;
+            }
+            if ReadWords::<W, Stack>::read(&mut b) != Ok(Some(ws[i])) {
+                run.violation("backend-contract", "C17/iterator-adapter", "exact-size iterator adapter read wrong word".into());
+                return;
+            }
+        }
+        let rest: Vec<W> = b.into_iter().map(|r| r.unwrap()).collect();
+        if rest[..] != ws[k..] {
+            run.violation("backend-contract", "C17/iterator-adapter", format!("into_iter() after {k} reads yields {:?}, expected {:?}", fmt(&rest), fmt(&ws[k..])));
             return;
         }
     }
